@@ -252,3 +252,12 @@ def cli_map(ctx):
     ctx.check(ok, R, 'map', ctx.where(fa, bc[0]), found=m, expected='pool.imap_unordered if nproc > 1 else map')
     for p in ('chunksize', 'cis_only', 'trans_only', 'tol', 'min_nnz', 'min_count', 'mad_max', 'max_iters'):
         ctx.eq(R, p, T.get_kw(bc[0].term, p), V(p), ctx.where(fa, bc[0]), 'option forwarded to the parameter of the same name')
+
+
+_run_core = run
+
+
+def run(ctx):
+    _run_core(ctx)
+    from . import refs_misc
+    refs_misc.run_for(ctx, 'C11')
